@@ -228,6 +228,12 @@ def generate(rng, tier):
                 for v in o:
                     salt(v)
         salt(ops)
+        # ... and twins: a coloured piece next to a plain str that spells out its escape sequences
+        for _ in range(rng.randint(1, 2)):
+            c, t = rng.randrange(ncolors), gen_str(rng, 6) or "x"
+            ops.append({"op": "new", "dst": rng.randrange(N_HANDLES), "parts": [{"c": c, "s": t}], "by": 0})
+            ops.append({"op": "new", "dst": rng.randrange(N_HANDLES), "parts": [{"r": c, "s": t}], "by": 0})
+            ops.append({"op": "eq", "a": ops[-1]["dst"], "b": {"c": c, "s": t}, "by": 0})
         tr["esc_operands"] = True
     return tr
 
@@ -330,6 +336,9 @@ class World:
 
     # ---- operands
     def real_operand(self, o):
+        if "r" in o:
+            # a plain str that happens to be what a coloured chunk renders to
+            return str(self.fmts[o["r"] % len(self.fmts)](o["s"]))
         if "s" in o and "c" not in o:
             return o["s"]
         if "c" in o:
@@ -347,7 +356,9 @@ class World:
 
     def model_operand(self, o, out):
         """appends cells to `out`; raises BoomHit(cells appended so far) at an injected fault"""
-        if "s" in o and "c" not in o:
+        if "r" in o:
+            out.extend((ch, sgr.PLAIN) for ch in str(self.fmts[o["r"] % len(self.fmts)](o["s"])))
+        elif "s" in o and "c" not in o:
             out.extend((ch, sgr.PLAIN) for ch in o["s"])
         elif "c" in o:
             st = self.styles[o["c"] % len(self.styles)]
